@@ -158,9 +158,11 @@ def sesqStep (st : SesState) (toks : List String) : SesState × String :=
 /-- the summary a window scenario ends with: independent of where inside its
     operation a parked goroutine stood -/
 def winSummary (w : World) : String :=
-  let parts := (List.range w.socks.size).map fun i =>
+  -- (sessions that are closed, once, are not listed)
+  let parts := (List.range w.socks.size).filterMap fun i =>
     let n := (w.slog.filter fun e => e.1 == i && e.2.isClose).length
-    s!"s{i}:{(w.sock i).rs.name}{if n > 1 then s!":x{n}" else ""}"
+    if (w.sock i).rs = .closed ∧ n ≤ 1 then none else
+    some s!"s{i}:{(w.sock i).rs.name}{if n > 1 then s!":x{n}" else ""}"
   let reg := w.registry.mergeSort (· ≤ ·)
   let pend := (List.range w.reqs.size).filter fun i => !(w.reqs.getD i default).done
   let ended := (List.range w.conns.size).filter fun i => (w.conns.getD i default).ended.isSome
